@@ -44,12 +44,21 @@ Definition lexerr_code (e : lexerr) : N := match e with
 Definition perr_code (e : perr) : N := match e with
   | ELex e => lexerr_code e | EBlockAfterValue => 20 | EBlockRequired => 21 | ENewlineKey => 22
   | EExpectedNewline => 23 | EMultipleNames => 24 | ETooManyClose => 25 | EUnexpected => 26 | EEofBlock => 27
-  | EEofOpen => 28 | EIndex => 29 end.
-Definition agree (r : pres) (e : list kv + N) : bool :=
-  match r, e with POk d, inl d' => doc_eqb d d' | PErr x, inr c => perr_code x =? c | _, _ => false end.
+  | EEofOpen => 28 | EIndex => 29 | ENewlineValue => 30 end.
+(* expected result: inl (inl doc) = root with children, inl (inr k) = single node, inr code = error kind *)
+Definition agree (r : pres) (e : (list kv + kv) + N) : bool :=
+  match r, e with
+  | POk d, inl (inl d') => doc_eqb d d'
+  | PNode k, inl (inr k') => kv_eqb k k'
+  | PErr x, inr c => perr_code x =? c
+  | _, _ => false end.
 Definition flag_tbl (t : list (str * bool)) (s : str) : bool := existsb (fun p => str_eqb (fst p) s && snd p) t.
-Definition parse_case (c : (str * list (str * bool)) * (list kv + N)) : bool :=
-  agree (parse_kv gen_escfg (flag_tbl (snd (fst c))) (fst (fst c))) (snd c).
+Definition mkopts (b : N) : popts :=
+  {| po_newline_keys := N.testbit b 0; po_newline_values := N.testbit b 1; po_single_line := N.testbit b 2;
+     po_single_block := N.testbit b 3 |}.
+Definition parse_case (c : ((str * N) * list (str * bool)) * ((list kv + kv) + N)) : bool :=
+  agree (parse_kv_opts gen_parsecfg (mkopts (snd (fst (fst c)))) gen_escfg (flag_tbl (snd (fst c))) (fst (fst (fst c))))
+        (snd c).
 Definition ser_case (c : ((str * bool * str) * list kv) * str) : bool :=
   let '(i, b, s) := fst (fst c) in
   str_eqb (serialise_doc gen_sercfg gen_escfg {| o_indent := i; o_indent_braces := b; o_start := s |} (snd (fst c))) (snd c).
@@ -64,7 +73,8 @@ ERR_CODES = [
     ('No open () to close', 7), ('/**/-style comments are not allowed', 8), ('Single slash found', 9),
     ('No character to escape', 10), ('Unterminated string', 11), ('Unexpected character', 12),
     ('Keyvalues cannot have sub-section', 20), ('Block opening ("{") required, but hit EOF', 27),
-    ('Block opening (', 21), ('Illegal newline found in key', 22), ('Expected ', 23),
+    ('Block opening (', 21), ('Illegal newline found in key', 22), ('Illegal newline found in value', 30),
+    ('Expected ', 23),
     ('Cannot have multiple names', 24), ('Too many closing brackets', 25), ('Unexpected ', 26),
     ('File ended unexpectedly', 26), ('End of text reached with remaining open sections', 28),
 ]
@@ -72,7 +82,19 @@ ERR_NAMES = {1: 'flag-newline', 2: 'flag-nest', 3: 'flag-eof', 4: 'paren-nest', 
              7: 'close-paren', 8: 'star-comment', 9: 'single-slash', 10: 'no-escape-char', 11: 'unterminated-string',
              12: 'unexpected-char', 20: 'block-after-value', 21: 'block-required', 22: 'newline-in-key',
              23: 'expected-newline', 24: 'multiple-names', 25: 'too-many-close', 26: 'unexpected-token',
-             27: 'eof-block-required', 28: 'eof-open-blocks', 29: 'index-error', 99: 'other'}
+             27: 'eof-block-required', 28: 'eof-open-blocks', 29: 'index-error', 30: 'newline-in-value', 99: 'other'}
+
+# Keyvalues.parse options covered by the model, as bits of the number handed to Coq (mkopts in PRE)
+OPT_NAMES = ['newline_keys', 'newline_values', 'single_line', 'single_block']
+DEFAULT_OPT_BITS = 2      # newline_values=True, the others False
+
+
+def opt_bits(o: dict) -> int:
+    return sum(1 << i for i, k in enumerate(OPT_NAMES) if o.get(k, k == 'newline_values'))
+
+
+def bits_opts(b: int) -> dict:
+    return {k: bool(b >> i & 1) for i, k in enumerate(OPT_NAMES)}
 
 # ------------------------------------------------------------------------------------------------ trees
 # A tree is ('L', name, value) or ('B', name, [children]); a document is a list of trees.
@@ -188,8 +210,8 @@ def coq_doc(doc) -> str:
 
 
 # ------------------------------------------------------------------------------------------------ implementation runs
-def impl_parse(data, flag_log: dict | None = None):
-    """Keyvalues.parse -> ('ok', doc) | ('err', code, message)"""
+def impl_parse(data, flag_log: dict | None = None, popts: dict | None = None, flags: dict | None = None):
+    """Keyvalues.parse -> ('ok', doc) | ('node', tree) (single_block) | ('err', code, message)"""
     from srctools import keyvalues as kvmod
     from srctools.tokenizer import TokenSyntaxError
     orig = kvmod._read_flag
@@ -202,7 +224,12 @@ def impl_parse(data, flag_log: dict | None = None):
     try:
         with warnings.catch_warnings():
             warnings.simplefilter('ignore')
-            root = kvmod.Keyvalues.parse(data)
+            kw = dict(popts or {})
+            if flags is not None:
+                kw['flags'] = flags
+            root = kvmod.Keyvalues.parse(data, **kw)
+            if root._real_name is not None:
+                return ('node', snapshot(root))
             return ('ok', snapshot(root)[2])
     except TokenSyntaxError as e:
         for pre, code in ERR_CODES:
@@ -333,19 +360,31 @@ def corr_parse(ck: Ck) -> None:
     for i in range(n):
         if i < len(CORPUS_TEXT):
             kind, text = 'corpus', CORPUS_TEXT[i]
+        elif i < 2 * len(CORPUS_TEXT):
+            pass
         else:
             kind, text = gen_parse_text(ck.rng)
         if len(text) > 1500:
             text = text[:1500]
         flags: dict = {}
-        res = impl_parse(text, flags)
-        cases.append((text, flags, res))
+        # options: the corpus first with the defaults, then again under every option vector in turn; generated
+        # texts half with the defaults, half with a random vector
+        if i < len(CORPUS_TEXT):
+            bits = DEFAULT_OPT_BITS
+        elif i < 2 * len(CORPUS_TEXT):
+            kind, text, bits = 'corpus-options', CORPUS_TEXT[i - len(CORPUS_TEXT)], ck.rng.randrange(16)
+        else:
+            bits = DEFAULT_OPT_BITS if ck.rng.random() < 0.5 else ck.rng.randrange(16)
+        res = impl_parse(text, flags, bits_opts(bits))
+        cases.append((text, flags, res, bits))
         ck.count('parse_correspondence_cases')
         ck.hist('parse_corr_kind', kind)
-        ck.hist('parse_corr_outcome', 'ok' if res[0] == 'ok' else ERR_NAMES.get(res[1], str(res[1])))
+        ck.hist('parse_corr_options', '+'.join(k for k, v in bits_opts(bits).items() if v) or 'none')
+        ck.hist('parse_corr_outcome', res[0] if res[0] != 'err' else ERR_NAMES.get(res[1], str(res[1])))
         if len(text) >= 4:
-            ck.seen(('parse', text))
-    ck.sample({'parse_case': {'text': cases[len(CORPUS_TEXT)][0], 'impl': cases[len(CORPUS_TEXT)][2]}})
+            ck.seen(('parse', text, bits))
+    ck.sample({'parse_case': {'text': cases[2 * len(CORPUS_TEXT)][0], 'impl': cases[2 * len(CORPUS_TEXT)][2],
+                              'options': bits_opts(cases[2 * len(CORPUS_TEXT)][3])}})
     bad: list[int] = []
     chunk: list[int] = []
     size = 0
@@ -354,9 +393,15 @@ def corr_parse(ck: Ck) -> None:
         nonlocal chunk, size
         if not chunk:
             return True
+        def want(r):
+            if r[0] == 'ok':
+                return f'inl (inl {coq_doc(r[1])})'
+            if r[0] == 'node':
+                return f'inl (inr ({coq_tree(r[1])}))'
+            return f'inr {r[1]}'
         lit = coq_list(
-            f'(({coq_chars(cases[k][0])}, [{"; ".join(f"({coq_chars(f)}, {coq_bool(v)})" for f, v in cases[k][1].items())}]), '
-            + (f'inl {coq_doc(cases[k][2][1])}' if cases[k][2][0] == 'ok' else f'inr {cases[k][2][1]}') + ')'
+            f'((({coq_chars(cases[k][0])}, {cases[k][3]}), '
+            f'[{"; ".join(f"({coq_chars(f)}, {coq_bool(v)})" for f, v in cases[k][1].items())}]), {want(cases[k][2])})'
             for k in chunk)
         vals = ck.coq_eval(IMPORTS, [f'bad_idx parse_case 0 {lit}'], name='parse', preamble=PRE)
         if vals is None:
@@ -378,9 +423,9 @@ def corr_parse(ck: Ck) -> None:
                   f'{len(cases)} texts, tokenizer+parser model (vm_compute) vs Keyvalues.parse, tree or error kind: '
                   f'{len(bad)} disagreements')
     if bad:
-        t, f, r = min((cases[i] for i in bad), key=lambda c: len(c[0]))
+        t, f, r, b = min((cases[i] for i in bad), key=lambda c: len(c[0]))
         ck.tie_broken.append('correspondence parse (KV/KvLex.v + KV/KvParse.v vs Tokenizer + Keyvalues.parse)')
-        ck.extra['parse_disagreement'] = {'text': t, 'flags': f, 'impl': r, 'n': len(bad)}
+        ck.extra['parse_disagreement'] = {'text': t, 'flags': f, 'impl': r, 'options': bits_opts(b), 'n': len(bad)}
 
 
 # ------------------------------------------------------------------------------------------------ dynamic tie of the tables
@@ -757,7 +802,11 @@ def run(ck: Ck) -> None:
             'leaf_lexes_to_name_value_NL(indent_braces=False)': 'leaf_ok gen_sercfg false',
             'child_indent_is_whitespace': 'child_indent_ok gen_sercfg',
             'root_child_indent_is_whitespace': 'root_indent_ok gen_sercfg',
-            'cfg_ok_and_esc_ok(premises of kv_roundtrip)': 'cfg_ok gen_sercfg && esc_ok gen_escfg',
+            'root_test_of_serialise_is_identity_with_None': 'root_test_ok gen_sercfg',
+            'parse_newline_key_test_rejects_only_LF_CR': 'key_break_ok gen_parsecfg',
+            'parse_newline_value_test_rejects_only_LF_CR': 'value_break_ok gen_parsecfg',
+            'cfg_ok_and_esc_ok_and_pcfg_ok(premises of kv_roundtrip)':
+                'cfg_ok gen_sercfg && esc_ok gen_escfg && pcfg_ok gen_parsecfg',
             'export_yields_have_no_raw_field': f'forallb {noraw} gen_export_yields',
             'no_store_to_tree_in_writers': 'Nat.eqb (length gen_tree_stores) 0',
             'no_mutating_call_on_tree_in_writers': 'Nat.eqb (length gen_tree_mut_calls) 0',
@@ -778,7 +827,8 @@ def run(ck: Ck) -> None:
     if any(k.startswith(('roundtrip:', 'roundtrip-named-node:')) for k in keys):
         for pre in ('instance:block_head_lexes', 'instance:block_tail_lexes', 'instance:leaf_lexes',
                     'instance:child_indent', 'instance:root_child_indent', 'instance:cfg_ok_and_esc_ok',
-                    'instance:escape_table', 'instance:every_escape_written'):
+                    'instance:escape_table', 'instance:every_escape_written', 'instance:root_test_of_serialise',
+                    'instance:parse_newline_key_test', 'instance:parse_newline_value_test'):
             ck.explain(pre)
     if any(k.startswith('export-roundtrip') for k in keys):
         ck.explain('instance:export_yields_have_no_raw_field')
